@@ -227,11 +227,103 @@ def make_server_interface(log, allow_none=True, **answers):
     return Srv()
 
 
-class Run:
-    pass
+class ModelPipe:
+    """list-backed stand-in for BufferedPipe in symbolic runs (the real one stores bytes in a C array; C26 is its check)"""
+
+    def __init__(self):
+        self.buf = b""
+        self.closed = False
+        self.event = None
+
+    def set_event(self, event):
+        self.event = event
+
+    def feed(self, data):
+        self.buf = self.buf + data if len(self.buf) else data
+
+    def read_ready(self):
+        return len(self.buf) > 0
+
+    def read(self, nbytes, timeout=None):
+        out, self.buf = self.buf[:nbytes], self.buf[nbytes:]
+        return out
+
+    def empty(self):
+        out, self.buf = self.buf, b""
+        return out
+
+    def close(self):
+        self.closed = True
+
+    def __len__(self):
+        return len(self.buf)
 
 
-def make_transport(server, script, server_interface=None, strict_local=True):
+class Assoc:
+    """association list with symbolic keys, standing in for ChannelMap / dicts keyed by channel ids
+    (the real ones hash in C); used in symbolic runs only"""
+
+    def __init__(self):
+        self.kv = []
+
+    def _find(self, k):
+        for i, (kk, v) in enumerate(self.kv):
+            if bool(lift(kk) == k):
+                return i
+        return None
+
+    def get(self, k, default=None):
+        i = self._find(k)
+        return default if i is None else self.kv[i][1]
+
+    def put(self, k, v):
+        i = self._find(k)
+        if i is None:
+            self.kv.append((k, v))
+        else:
+            self.kv[i] = (k, v)
+    __setitem__ = put
+
+    def __getitem__(self, k):
+        i = self._find(k)
+        if i is None:
+            raise KeyError(k)
+        return self.kv[i][1]
+
+    def __contains__(self, k):
+        return self._find(k) is not None
+
+    def delete(self, k):
+        i = self._find(k)
+        if i is not None:
+            del self.kv[i]
+    __delitem__ = delete
+
+    def pop(self, k, *d):
+        i = self._find(k)
+        if i is None:
+            if d:
+                return d[0]
+            raise KeyError(k)
+        return self.kv.pop(i)[1]
+
+    def values(self):
+        return [v for _, v in self.kv]
+
+    def keys(self):
+        return [k for k, _ in self.kv]
+
+    def items(self):
+        return list(self.kv)
+
+    def __iter__(self):
+        return iter(self.keys())
+
+    def __len__(self):
+        return len(self.kv)
+
+
+def make_transport(server, script, server_interface=None, strict_local=True, symbolic_ids=False):
     """Transport wired to the scripted packetizer; nothing has run yet"""
     from paramiko.transport import Transport
     sent, raw = [], []
@@ -249,6 +341,8 @@ def make_transport(server, script, server_interface=None, strict_local=True):
         t.add_server_key(host_key())
     else:
         t.host_key_type = "ecdsa-sha2-nistp256"
+    if symbolic_ids:
+        t._channels, t.channels_seen, t.channel_events = Assoc(), Assoc(), Assoc()
     t.active = True
     t.sent = sent
     t.raw = raw
@@ -277,9 +371,10 @@ def loop_patches():
     import paramiko.auth_handler as AH
     import paramiko.channel as CH
     import paramiko.packet as PK
-    from sx.stubs import StructShim, BytesIOShim, IntShim, byte_chr_shim
+    from sx.stubs import StructShim, BytesIOShim, IntShim, byte_chr_shim, SymKeyDict
     ps = std_patches(PM, PU, builtins=("int",))
-    ps += [(PK, "struct", StructShim), (T, "range", bounded_range), (AH, "range", bounded_range)]
+    ps += [(PK, "struct", StructShim), (T, "range", bounded_range), (AH, "range", bounded_range),
+           (CH, "BufferedPipe", ModelPipe), (T, "CONNECTION_FAILED_CODE", SymKeyDict(T.CONNECTION_FAILED_CODE))]
     return ps
 
 
